@@ -195,7 +195,18 @@ pub assume_specification [char::is_ascii_digit] (c: &char) -> (r: bool)
     ensures r == ('0' <= *c && *c <= '9');
 pub assume_specification [char::to_digit] (c: char, radix: u32) -> (r: Option<u32>)
     requires 2 <= radix <= 36,
-    ensures radix == 16 ==> (r is Some <==> spec_is_hex(c)), r is Some ==> r->0 < radix;
+    ensures radix == 16 ==> (r is Some <==> spec_is_hex(c)), r is Some ==> r->0 < radix,
+            radix == 16 && r is Some ==> r->0 as int == hex_val(c);
+/// the value of one hexadecimal digit (either letter case)
+pub open spec fn hex_val(c: char) -> int {
+    if '0' <= c && c <= '9' { c as int - '0' as int } else if 'a' <= c && c <= 'f' { c as int - 'a' as int + 10 } else { c as int - 'A' as int + 10 }
+}
+/// the value of the first n of four hexadecimal digits
+pub open spec fn hex_prefix(d: Seq<char>, n: int) -> int {
+    if n <= 0 { 0 } else if n == 1 { hex_val(d[0]) } else if n == 2 { hex_val(d[0]) * 16 + hex_val(d[1]) }
+    else if n == 3 { (hex_val(d[0]) * 16 + hex_val(d[1])) * 16 + hex_val(d[2]) }
+    else { ((hex_val(d[0]) * 16 + hex_val(d[1])) * 16 + hex_val(d[2])) * 16 + hex_val(d[3]) }
+}
 pub assume_specification [char::from_u32] (v: u32) -> (r: Option<char>)
     ensures r is Some ==> (r->0) as u32 == v;
 
